@@ -134,7 +134,7 @@ Definition mp_Int64 (bd : Z) (r : rd) : res Z :=
   else if bd =? mpUint8 then readv 1 r
   else if bd =? mpUint16 then readv 2 r
   else if bd =? mpUint32 then readv 4 r
-  else if bd =? mpUint64 then do v <- readv 8 r ;; Ok (wraps 64 v)
+  else if bd =? mpUint64 then do v <- readv 8 r ;; checkOverflow_SignedIntV v
   else if bd =? mpInt8 then do v <- readv 1 r ;; Ok (wraps 8 v)
   else if bd =? mpInt16 then do v <- readv 2 r ;; Ok (wraps 16 v)
   else if bd =? mpInt32 then do v <- readv 4 r ;; Ok (wraps 32 v)
@@ -167,6 +167,7 @@ Definition mp_Float64 (bd : Z) (r : rd) : res Z :=
   if mp_nil bd then Ok 0
   else if bd =? mpFloat then do b <- readv 4 r ;; Ok (f32_to_f64 b)
   else if bd =? mpDouble then readv 8 r
+  else if bd =? mpUint64 then do v <- readv 8 r ;; Ok (f64_of_int v)
   else do i <- mp_Int64 bd r ;; Ok (f64_of_int i).
 
 Definition msgpack : driver := Build_driver mp_nil mp_Int64 mp_Uint64 mp_Float64.
